@@ -28,6 +28,7 @@ type Op struct {
 	Kind   string // req | adv
 	Key    string `json:",omitempty"`
 	Limit  int    `json:",omitempty"` // value MaxFunc returns for this request
+	ViaErr bool   `json:",omitempty"` // a failing handler returns fiber.NewError(status) instead of writing the status itself
 	Status int    `json:",omitempty"` // status the protected handler answers
 	Dt     int    `json:",omitempty"` // adv: seconds
 	Slow   int    `json:",omitempty"` // req: the protected handler takes this many seconds (the window may roll over meanwhile)
@@ -79,6 +80,9 @@ func newLimiter(c Case, st *vk.Storage, onHandler func(fiber.Ctx)) *fiber.App {
 		st, _ := strconv.Atoi(ctx.Query("st"))
 		if st == 0 {
 			st = 200
+		}
+		if st >= 400 && ctx.Query("viaerr") == "1" {
+			return fiber.NewError(st, "failed") // the idiomatic way to fail: the ErrorHandler writes the status later
 		}
 		return ctx.SendStatus(st)
 	})
@@ -194,7 +198,11 @@ func check(c Case) vk.Verdict {
 			w.adm, w.all = 0, 0
 		}
 		before := admitted
-		r := do(fmt.Sprintf("/?k=%s&st=%d&lim=%d&slow=%d", op.Key, op.Status, limit, op.Slow))
+		viaErr := 0
+		if op.ViaErr {
+			viaErr = 1
+		}
+		r := do(fmt.Sprintf("/?k=%s&st=%d&lim=%d&slow=%d&viaerr=%d", op.Key, op.Status, limit, op.Slow, viaErr))
 		ran := admitted > before
 		retryNow := now // (a slow handler moved the clock meanwhile; everything below is judged at the time of arrival, and a
 		// give-back belongs to the window the hit was counted in - the model rolls its window lazily at the next request)
@@ -294,7 +302,7 @@ func genCase(t *rapid.T) Case {
 			c.Ops = append(c.Ops, Op{Kind: "adv", Dt: rapid.IntRange(0, 2*c.Exp).Draw(t, "dt")})
 			continue
 		}
-		o := Op{Kind: "req", Key: rapid.SampledFrom([]string{"a", "b", "c"}[:nkeys]).Draw(t, "k"), Status: rapid.SampledFrom([]int{200, 200, 500, 404}).Draw(t, "st"), Limit: constLimit}
+		o := Op{Kind: "req", Key: rapid.SampledFrom([]string{"a", "b", "c"}[:nkeys]).Draw(t, "k"), Status: rapid.SampledFrom([]int{200, 200, 500, 404}).Draw(t, "st"), Limit: constLimit, ViaErr: rapid.Bool().Draw(t, "viaerr")}
 		if !c.SubSec && rapid.IntRange(0, 7).Draw(t, "slow") == 0 {
 			o.Slow = rapid.IntRange(1, 2*c.Exp).Draw(t, "slowsecs")
 		}
